@@ -126,35 +126,37 @@ Definition rq_req_marker (s : st) : option (list elem * st) :=
 Record rq_parsed := { pr_name : list N; pr_url : list N; pr_extras : list (list N); pr_spec : list N; pr_marker : option (list elem) }.
 Definition rq_not_blank (c : N) : bool := negb (is_wsb c).          (* URL = [^ \t]+ *)
 
-(* _parse_requirement + _parse_requirement_details;  None = ParserSyntaxError *)
+(* _parse_requirement_details = AT URL (WS requirement_marker?)? | specifier WS? requirement_marker? ;  None = ParserSyntaxError *)
+Definition rq_details (s : st) : option ((list N * list N * option (list elem)) * st) :=
+  if rq_is_hd 64 s then
+    let s := skip_ws (rq_drop1 s) in
+    let '(url, r) := MText.span rq_not_blank (rest s) in
+    match url with [] => None | _ =>
+      let s := adv s url r in
+      if rq_at_end s then Some ((url, [], None), s) else
+      let '(w, r') := MText.span is_wsb (rest s) in
+      match w with [] => None | _ =>                         (* "Expected whitespace after URL" *)
+        let s := adv s w r' in
+        if rq_at_end s then Some ((url, [], None), s) else
+        match rq_req_marker s with Some (m, s) => Some ((url, [], Some m), s) | None => None end
+      end
+    end
+  else
+    match rq_specifier s with None => None | Some (spec, s) =>
+      let s := skip_ws s in
+      if rq_at_end s then Some (([], spec, None), s) else
+      match rq_req_marker s with Some (m, s) => Some (([], spec, Some m), s) | None => None end
+    end.
+(* _parse_requirement = WS? IDENTIFIER WS? extras WS? requirement_details END *)
 Definition rq_parse (src : list N) : option rq_parsed :=
   let s := skip_ws {| prev := None; rest := src |} in
   match rq_ident s with None => None | Some (name, s) =>
   let s := skip_ws s in
   match rq_extras s with None => None | Some (extras, s) =>
   let s := skip_ws s in
-  let finish (url spec : list N) (m : option (list elem)) (s : st) :=
-     if rq_at_end s then Some {| pr_name := name; pr_url := url; pr_extras := extras; pr_spec := spec; pr_marker := m |} else None in
-  if rq_is_hd 64 s then
-    let s := skip_ws (rq_drop1 s) in
-    let '(url, r) := MText.span rq_not_blank (rest s) in
-    match url with [] => None | _ =>
-      let s := adv s url r in
-      if rq_at_end s then finish url [] None s else
-      let '(w, r') := MText.span is_wsb (rest s) in
-      match w with [] => None | _ =>
-        let s := adv s w r' in
-        if rq_at_end s then finish url [] None s else
-        match rq_req_marker s with Some (m, s) => finish url [] (Some m) s | None => None end
-      end
-    end
-  else
-    match rq_specifier s with None => None | Some (spec, s) =>
-      let s := skip_ws s in
-      if rq_at_end s then finish [] spec None s else
-      match rq_req_marker s with Some (m, s) => finish [] spec (Some m) s | None => None end
-    end
-  end end.
+  match rq_details s with None => None | Some ((url, spec, m), s) =>
+  if rq_at_end s then Some {| pr_name := name; pr_url := url; pr_extras := extras; pr_spec := spec; pr_marker := m |} else None
+  end end end.
 
 (* ------------------------------------------------------------------ SpecifierSet (the part Requirement uses) ------------- *)
 (* The full model of SpecifierSet lives in coq/Sets/; Requirement needs only construction from text, str(), == and the hash key. *)
